@@ -379,10 +379,14 @@ def gen_op(rng, tables, optional=True):
         if "onset" not in cols or "duration" not in cols or column_kind(tables, "onset") != "num":
             return None
         numcols = [c for c in cols if column_kind(tables, c) == "num" and c not in ("onset",)]
+        # numeric columns holding n/a cells as well: a duration taken from an n/a cell stays n/a
+        durcols = numcols + [c for c in cols if c != "onset" and c not in numcols
+                             and all(not isinstance(r[c], str) for t in tables for r in t["rows"])
+                             and any(r[c] is not None for t in tables for r in t["rows"])] * 2
         ev = {}
         for k in range(rng.randrange(1, 3)):
             e = dict(onset_source=[[0.125, 0.0625, 1.03125][k]] + ([rng.choice(numcols)] if numcols and rng.random() < 0.4 else []),
-                     duration=[rng.choice([0, 0.5, 0.25])] + ([rng.choice(numcols)] if numcols and rng.random() < 0.3 else []))
+                     duration=[rng.choice([0, 0.5, 0.25])] + ([rng.choice(durcols)] if durcols and rng.random() < 0.45 else []))
             if optional and rng.random() < 0.6:
                 cc = [c for c in cols if c not in ("onset", "duration")]
                 if cc:
